@@ -728,4 +728,299 @@ theorem morph_empty_wf (sel : String → Bool) (t u : ITier Int) (ht : t.WF) (h1
     t.morph u sel = .ok t := by
   rw [morph_empty sel t u h1 h2, new_of_wf t ht]
 
+/-! ## alignBoundariesAcrossTiers -/
+
+theorem pyListInsert_mid {β : Type} (l1 l2 : List β) (t : β) :
+    pyListInsert (l1 ++ l2) (l1.length : Int) t = l1 ++ t :: l2 := by
+  have h1 : ¬ ((l1.length : Int) < 0) := by omega
+  have h2 : ¬ ((l1.length : Int) > ((l1 ++ l2).length : Int)) := by rw [List.length_append]; omega
+  simp only [pyListInsert, h1, h2, if_false, Int.toNat_natCast, List.take_left, List.drop_left]
+
+/-- a uniquely named tier splits the tier list around it -/
+theorem split_at_name (tiers : List (AnyTier Int)) (n : String) (hnd : (tiers.map (·.name)).Nodup)
+    (hmem : n ∈ tiers.map (·.name)) :
+    ∃ l1 x l2, tiers = l1 ++ x :: l2 ∧ x.name = n ∧ (∀ y ∈ l1, y.name ≠ n) ∧ (∀ y ∈ l2, y.name ≠ n) := by
+  obtain ⟨x, hx, hxn⟩ := List.mem_map.1 hmem
+  obtain ⟨l1, l2, rfl⟩ := List.append_of_mem hx
+  refine ⟨l1, x, l2, rfl, hxn, ?_, ?_⟩
+  · intro y hy he
+    rw [List.map_append, List.map_cons, List.nodup_append] at hnd
+    exact hnd.2.2 y.name (List.mem_map_of_mem hy) x.name (by simp) (by rw [he, hxn])
+  · intro y hy he
+    rw [List.map_append, List.map_cons, List.nodup_append, List.nodup_cons] at hnd
+    exact hnd.2.1.1 (by rw [hxn, ← he]; exact List.mem_map_of_mem hy)
+
+theorem findIdx_name (l1 l2 : List (AnyTier Int)) (x : AnyTier Int) (n : String) (hx : x.name = n)
+    (h1 : ∀ y ∈ l1, y.name ≠ n) :
+    ((l1 ++ x :: l2).map (·.name)).findIdx? (· == n) = some l1.length := by
+  induction l1 with
+  | nil => simp [List.findIdx?_cons, hx]
+  | cons y ys ih =>
+    have hy : y.name ≠ n := h1 y (by simp)
+    have := ih (fun z hz => h1 z (List.mem_cons_of_mem _ hz))
+    simp only [List.cons_append, List.map_cons, List.findIdx?_cons, beq_iff_eq, hy, if_false, this,
+      Option.map_some, List.length_cons]
+
+theorem filter_name (l1 l2 : List (AnyTier Int)) (x : AnyTier Int) (n : String) (hx : x.name = n)
+    (h1 : ∀ y ∈ l1, y.name ≠ n) (h2 : ∀ y ∈ l2, y.name ≠ n) :
+    (l1 ++ x :: l2).filter (·.name != n) = l1 ++ l2 := by
+  rw [List.filter_append, List.filter_cons]
+  have e1 : l1.filter (·.name != n) = l1 := List.filter_eq_self.2 (fun y hy => by simpa using h1 y hy)
+  have e2 : l2.filter (·.name != n) = l2 := List.filter_eq_self.2 (fun y hy => by simpa using h2 y hy)
+  simp [e1, e2, hx]
+
+/-- `replaceTier` of a uniquely named tier by one of the same name: same position, nothing else touched -/
+theorem replaceTier_same_name (g : Tg Int) (t' : AnyTier Int) (hnd : g.names.Nodup) (hmem : t'.name ∈ g.names) :
+    ∃ g', g.replaceTier t'.name t' .warning = .ok g' ∧ g'.names = g.names ∧
+      g'.getTier t'.name = .ok t' ∧ ∀ m, m ≠ t'.name → g'.getTier m = g.getTier m := by
+  obtain ⟨l1, x, l2, hsplit, hxn, h1, h2⟩ := split_at_name g.tiers t'.name hnd hmem
+  have hidx : g.indexOf t'.name = some l1.length := by
+    unfold Tg.indexOf Tg.names; rw [hsplit]; exact findIdx_name l1 l2 x _ hxn h1
+  have hcont : (g.tiers.map (·.name)).contains t'.name = true := List.contains_iff_mem.2 hmem
+  have hfil : g.tiers.filter (·.name != t'.name) = l1 ++ l2 := by
+    rw [hsplit]; exact filter_name l1 l2 x _ hxn h1 h2
+  have hnc : ((l1 ++ l2).map (·.name)).contains t'.name = false := by
+    cases h : ((l1 ++ l2).map (·.name)).contains t'.name with
+    | false => rfl
+    | true =>
+      have := List.contains_iff_mem.1 h
+      obtain ⟨y, hy, hyn⟩ := List.mem_map.1 this
+      rcases List.mem_append.1 hy with hy | hy
+      · exact absurd hyn (h1 y hy)
+      · exact absurd hyn (h2 y hy)
+  have hrep : ∃ lo hi, g.replaceTier t'.name t' .warning = .ok ⟨l1 ++ t' :: l2, lo, hi⟩ := by
+    unfold Tg.replaceTier
+    rw [hidx]
+    simp only [Tg.removeTier, hcont, if_true, bind, Except.bind, Tg.addTier, Tg.names, hfil, hnc,
+      Bool.false_eq_true, if_false, pyListInsert_mid, reduceCtorEq, false_and]
+    exact ⟨_, _, rfl⟩
+  obtain ⟨lo, hi, hrep⟩ := hrep
+  refine ⟨⟨l1 ++ t' :: l2, lo, hi⟩, hrep, ?_, ?_, ?_⟩
+  · simp only [Tg.names, hsplit, List.map_append, List.map_cons, hxn]
+  · simp only [Tg.getTier, List.find?_append, List.find?_cons]
+    have : l1.find? (·.name == t'.name) = none := List.find?_eq_none.2 (fun y hy => by simpa using h1 y hy)
+    simp [this]
+  · intro m hm
+    simp only [Tg.getTier, hsplit, List.find?_append, List.find?_cons]
+    have e1 : (t'.name == m) = false := by simpa using fun h => hm h.symm
+    have e2 : (x.name == m) = false := by rw [hxn]; exact e1
+    simp only [e1, e2]
+theorem mkITier_name (name : String) (es : List (Iv Int)) (lo hi : Option Int) (t : ITier Int)
+    (h : mkITier name es lo hi = .ok t) : t.name = name := by
+  simp only [mkITier] at h
+  split at h
+  · split at h
+    · cases h; rfl
+    · cases h
+  · cases h
+
+theorem mkPTier_name (name : String) (ps : List (Pt Int)) (lo hi : Option Int) (t : PTier Int)
+    (h : mkPTier name ps lo hi = .ok t) : t.name = name := by
+  simp only [mkPTier] at h
+  split at h
+  · cases h; rfl
+  · cases h
+
+/-- dejitter keeps the tier's name and kind -/
+theorem anyDejitter_name (t t' : AnyTier Int) (refs : List Int) (md : Int) (h : t.dejitter refs md = .ok t') :
+    t'.name = t.name ∧ t'.isInterval = t.isInterval := by
+  by_cases hne : refs = []
+  · subst hne; cases t <;> cases h
+  cases t with
+  | I it =>
+    simp only [AnyTier.dejitter] at h
+    cases hd : it.dejitter refs md with
+    | error e => rw [hd] at h; cases h
+    | ok v =>
+      rw [hd] at h; cases h
+      rw [dejitter_unfold it refs hne] at hd
+      exact ⟨mkITier_name _ _ _ _ _ hd, rfl⟩
+  | P pt =>
+    simp only [AnyTier.dejitter] at h
+    cases hd : pt.dejitter refs md with
+    | error e => rw [hd] at h; cases h
+    | ok v =>
+      rw [hd] at h; cases h
+      rw [pdejitter_unfold pt refs hne] at hd
+      exact ⟨mkPTier_name _ _ _ _ _ hd, rfl⟩
+
+/-- the loop body of `alignBoundariesAcrossTiers` -/
+def alignStep (ref : String) (times : List Int) (md : Int) (acc : Tg Int) (t : AnyTier Int) : Except Err (Tg Int) :=
+  if t.name == ref then pure acc
+  else do
+    let t' ← t.dejitter times md
+    acc.replaceTier t'.name t' .warning
+
+theorem align_fold (ref : String) (times : List Int) (md : Int) (l : List (AnyTier Int)) (acc g' : Tg Int)
+    (hnd : acc.names.Nodup) (hsub : ∀ t ∈ l, t.name ∈ acc.names) (hl : (l.map (·.name)).Nodup)
+    (h : l.foldlM (alignStep ref times md) acc = .ok g') :
+    g'.names = acc.names ∧
+    (∀ m, (m = ref ∨ m ∉ l.map (·.name)) → g'.getTier m = acc.getTier m) ∧
+    (∀ t ∈ l, t.name ≠ ref → ∃ t', t.dejitter times md = .ok t' ∧ g'.getTier t.name = .ok t') := by
+  induction l generalizing acc with
+  | nil =>
+    simp only [List.foldlM_nil, pure, Except.pure, Except.ok.injEq] at h
+    subst h
+    exact ⟨rfl, fun _ _ => rfl, by simp⟩
+  | cons t l ih =>
+    rw [List.foldlM_cons] at h
+    rw [List.map_cons, List.nodup_cons] at hl
+    have hsub' : ∀ t ∈ l, t.name ∈ acc.names := fun x hx => hsub x (List.mem_cons_of_mem _ hx)
+    by_cases hr : t.name = ref
+    · have hs : alignStep ref times md acc t = .ok acc := by simp [alignStep, hr, pure, Except.pure]
+      rw [hs] at h
+      obtain ⟨i1, i2, i3⟩ := ih acc hnd hsub' hl.2 h
+      refine ⟨i1, ?_, ?_⟩
+      · intro m hm
+        apply i2
+        rcases hm with hm | hm
+        · exact Or.inl hm
+        · exact Or.inr (fun hc => hm (by simp only [List.map_cons]; exact List.mem_cons_of_mem _ hc))
+      · intro x hx hxr
+        rcases List.mem_cons.1 hx with rfl | hx
+        · exact absurd hr hxr
+        · exact i3 x hx hxr
+    · have hb : (t.name == ref) = false := by simpa using hr
+      cases hd : t.dejitter times md with
+      | error e =>
+        simp only [alignStep, hb, Bool.false_eq_true, if_false, hd, bind, Except.bind] at h
+        cases h
+      | ok t' =>
+        obtain ⟨hn', _⟩ := anyDejitter_name t t' times md hd
+        have hmem : t'.name ∈ acc.names := by rw [hn']; exact hsub t (by simp)
+        obtain ⟨acc', r1, r2, r3, r4⟩ := replaceTier_same_name acc t' hnd hmem
+        have hs : alignStep ref times md acc t = .ok acc' := by
+          simp only [alignStep, hb, Bool.false_eq_true, if_false, hd, bind, Except.bind]
+          exact r1
+        rw [hs] at h
+        obtain ⟨i1, i2, i3⟩ := ih acc' (by rw [r2]; exact hnd) (by rw [r2]; exact hsub') hl.2 h
+        refine ⟨by rw [i1, r2], ?_, ?_⟩
+        · intro m hm
+          have hm' : m = ref ∨ m ∉ l.map (·.name) := by
+            rcases hm with hm | hm
+            · exact Or.inl hm
+            · exact Or.inr (fun hc => hm (by simp only [List.map_cons]; exact List.mem_cons_of_mem _ hc))
+          rw [i2 m hm']
+          apply r4
+          rw [hn']
+          rcases hm with hm | hm
+          · rw [hm]; exact fun hc => hr hc.symm
+          · intro hc; apply hm; rw [hc]; simp
+        · intro x hx hxr
+          rcases List.mem_cons.1 hx with rfl | hx
+          · refine ⟨t', hd, ?_⟩
+            rw [i2 x.name (Or.inr hl.1), ← hn']
+            exact r3
+          · exact i3 x hx hxr
+
+/-- the guard of `alignBoundariesAcrossTiers`, as written: consecutive reference timestamps closer than
+`maxDifference` (the first gap is not examined) -/
+def alignGuard (times : List Int) (md : Int) : Bool :=
+  ((times.drop 1).zip ((times.drop 1).drop 1)).any (fun (x, y) => decide (y - x < md))
+
+theorem align_unfold (g : Tg Int) (ref : String) (md : Int) (rt : AnyTier Int) (hrt : g.getTier ref = .ok rt) :
+    g.alignBoundaries ref md =
+      if alignGuard rt.timestamps md then .error .ArgumentError
+      else g.tiers.foldlM (alignStep ref rt.timestamps md) g := by
+  unfold Tg.alignBoundaries
+  rw [hrt]
+  simp only [bind, Except.bind, alignGuard]
+  split
+  · rename_i hc; simp only [hc, if_true]; rfl
+  · rename_i hc; simp only [hc]; rfl
+
+/-- a missing reference tier: `KeyError` -/
+theorem align_missing (g : Tg Int) (ref : String) (md : Int) (h : ref ∉ g.names) :
+    g.alignBoundaries ref md = .error .KeyError := by
+  have : g.tiers.find? (·.name == ref) = none := by
+    apply List.find?_eq_none.2
+    intro x hx hc
+    exact h (List.mem_map.2 ⟨x, hx, by simpa using hc⟩)
+  unfold Tg.alignBoundaries Tg.getTier
+  rw [this]
+  rfl
+
+/-- **guard**: reference timestamps closer together than `maxDifference`: `ArgumentError` -/
+theorem align_guard (g : Tg Int) (ref : String) (md : Int) (rt : AnyTier Int) (hrt : g.getTier ref = .ok rt)
+    (hg : alignGuard rt.timestamps md = true) : g.alignBoundaries ref md = .error .ArgumentError := by
+  rw [align_unfold g ref md rt hrt, hg]; rfl
+
+/-- **alignBoundariesAcrossTiers**: on success the tier names (and their order) are unchanged, the reference tier is
+untouched, and every other tier has been replaced, in place, by its `dejitter` against the reference timestamps -/
+theorem align_spec (g : Tg Int) (ref : String) (md : Int) (g' : Tg Int) (hnd : g.names.Nodup)
+    (h : g.alignBoundaries ref md = .ok g') :
+    ∃ rt, g.getTier ref = .ok rt ∧ alignGuard rt.timestamps md = false ∧
+      g'.names = g.names ∧ g'.getTier ref = .ok rt ∧
+      ∀ t ∈ g.tiers, t.name ≠ ref →
+        ∃ t', t.dejitter rt.timestamps md = .ok t' ∧ g'.getTier t.name = .ok t' := by
+  cases hrt : g.getTier ref with
+  | error e =>
+    unfold Tg.alignBoundaries at h
+    rw [hrt] at h; cases h
+  | ok rt =>
+    rw [align_unfold g ref md rt hrt] at h
+    cases hg : alignGuard rt.timestamps md with
+    | true => rw [hg] at h; cases h
+    | false =>
+      rw [hg] at h
+      simp only [Bool.false_eq_true, if_false] at h
+      obtain ⟨i1, i2, i3⟩ := align_fold ref rt.timestamps md g.tiers g g' hnd
+        (fun t ht => List.mem_map_of_mem ht) hnd h
+      exact ⟨rt, rfl, hg, i1, by rw [i2 ref (Or.inl rfl), hrt], i3⟩
+
+theorem align_reference_untouched (g : Tg Int) (ref : String) (md : Int) (g' : Tg Int) (hnd : g.names.Nodup)
+    (h : g.alignBoundaries ref md = .ok g') : g'.names = g.names ∧ g'.getTier ref = g.getTier ref := by
+  obtain ⟨rt, h1, _, h3, h4, _⟩ := align_spec g ref md g' hnd h
+  exact ⟨h3, by rw [h4, h1]⟩
+
+
+/-! ## non-vacuity: concrete well-formed tiers meet the hypotheses; evaluated illustrations -/
+
+def exTier : ITier Int := ⟨"T", [⟨10, 30, "a"⟩, ⟨31, 60, "b"⟩, ⟨80, 90, "c"⟩], 0, 100⟩
+def exRef : ITier Int := ⟨"R", [⟨0, 32, "r"⟩, ⟨32, 58, "s"⟩, ⟨58, 100, "t"⟩], 0, 100⟩
+def exTarget : ITier Int := ⟨"U", [⟨0, 5, "p"⟩, ⟨5, 6, "q"⟩, ⟨7, 10, "r"⟩], 0, 10⟩
+def exPoints : PTier Int := ⟨"P", [⟨31, "y"⟩, ⟨33, "x"⟩, ⟨70, "z"⟩], 0, 100⟩
+def exTg : Tg Int := ⟨[.I exTier, .I exRef, .P exPoints], some 0, some 100⟩
+
+theorem exTier_wf : exTier.WF := by
+  refine ⟨?_, ?_, ?_, ?_, ?_, ?_⟩ <;> simp [exTier, Pos, Disj, Stripped] <;> decide
+theorem exRef_wf : exRef.WF := by
+  refine ⟨?_, ?_, ?_, ?_, ?_, ?_⟩ <;> simp [exRef, Pos, Disj, Stripped] <;> decide
+theorem exTarget_wf : exTarget.WF := by
+  refine ⟨?_, ?_, ?_, ?_, ?_, ?_⟩ <;> simp [exTarget, Pos, Disj, Stripped] <;> decide
+theorem exPoints_wf : exPoints.WF := by
+  refine ⟨?_, ?_, ?_, ?_, ?_⟩ <;> simp [exPoints, Pt.le] <;> decide
+
+/-- the hypotheses of `dejitter_spec`, `pdejitter_spec`, `morph_ok`, `align_spec` are jointly satisfiable -/
+example : exTier.WF ∧ exPoints.WF ∧ exTarget.WF ∧ ([0, 32, 58, 100] : List Int) ≠ [] ∧
+    exTier.es.length = exTarget.es.length ∧ exTier.es ≠ [] ∧ exTg.names.Nodup :=
+  ⟨exTier_wf, exPoints_wf, exTarget_wf, by simp, rfl, by simp [exTier], by simp [exTg, Tg.names, AnyTier.name, exTier, exRef, exPoints]⟩
+
+-- evaluated illustrations (interpreter tests, not proofs)
+#guard exRef.timestamps == [0, 32, 58, 100]
+#guard nearest ([0, 32, 58, 100] : List Int) 45 == some 32          -- tie 32 / 58: the first one wins
+#guard nearest ([58, 32] : List Int) 45 == some 58
+-- 30 and 31 are within 2 of 32, 60 is within 2 of 58; 10, 80, 90 are not near anything
+#guard (exTier.dejitter exRef.timestamps 2).toOption.map (fun t => (t.es, t.lo, t.hi)) ==
+    some ([⟨10, 32, "a"⟩, ⟨32, 58, "b"⟩, ⟨80, 90, "c"⟩], 0, 100)
+#guard (exTier.dejitter exRef.timestamps 1).toOption.map (·.es) ==
+    some [⟨10, 30, "a"⟩, ⟨32, 60, "b"⟩, ⟨80, 90, "c"⟩]
+-- an interval whose two ends snap to the same reference collapses: the call raises
+#guard (match (⟨"T", [⟨10, 12, "x"⟩], 0, 20⟩ : ITier Int).dejitter [11] 1 with
+        | .error .TextgridStateError => true | _ => false)
+#guard (match exTier.dejitter [] 2 with | .error .ArgumentError => true | _ => false)
+-- two points land on 32 and are re-ordered by label
+#guard (exPoints.dejitter exRef.timestamps 2).toOption.map (·.ps) == some [⟨32, "x"⟩, ⟨32, "y"⟩, ⟨70, "z"⟩]
+-- morph: "a" and "c" take the target durations 5 and 3, "b" keeps 29; gaps 1 and 20, first start 10, trailing gap 10
+#guard (exTier.morph exTarget (· != "b")).toOption.map (fun t => (t.es, t.lo, t.hi)) ==
+    some ([⟨10, 15, "a"⟩, ⟨16, 45, "b"⟩, ⟨65, 68, "c"⟩], 0, 78)
+#guard (match exTier.morph ⟨"U", [⟨0, 5, "p"⟩], 0, 10⟩ (fun _ => true) with
+        | .error .SafeZipException => true | _ => false)
+#guard (exTg.alignBoundaries "R" 2).toOption.map (·.names) == some ["T", "R", "P"]
+#guard (exTg.alignBoundaries "R" 2).toOption.map (fun g => (g.getTier "T").toOption.map
+          (fun t => match t with | .I t => t.es | .P _ => [])) ==
+    some (some [⟨10, 32, "a"⟩, ⟨32, 58, "b"⟩, ⟨80, 90, "c"⟩])
+#guard (match exTg.alignBoundaries "R" 30 with | .error .ArgumentError => true | _ => false)
+#guard (match exTg.alignBoundaries "nope" 2 with | .error .KeyError => true | _ => false)
+
 end C14
